@@ -25,6 +25,9 @@ TARGETS = [
     ('amqpstorm/channel.py', 'Channel', 'check_for_errors'),
     ('amqpstorm/basic.py', 'Basic', 'publish'),
     ('amqpstorm/basic.py', 'Basic', '_publish_confirm'),
+    ('amqpstorm/heartbeat.py', 'Heartbeat', 'stop'),
+    ('amqpstorm/heartbeat.py', 'Heartbeat', '_start_new_timer'),
+    ('amqpstorm/heartbeat.py', 'Heartbeat', '_check_for_life_signs'),
     ('amqpstorm/base.py', 'BaseChannel', 'add_consumer_tag'),
     ('amqpstorm/base.py', 'BaseChannel', 'remove_consumer_tag'),
 ]
@@ -108,6 +111,18 @@ def call_id(call, cls):
         return 'KRegisterWrite'
     if name in ('append', 'remove') and recv == '_consumer_tags':
         return 'KTagsInPlace'
+    if name == 'is_set' and recv == '_running':
+        return 'KTestRunning'
+    if name == 'clear' and recv == '_running':
+        return 'KClearRunning'
+    if name == 'timer_impl':
+        return 'KTimerCreate'
+    if name == 'start' and recv == '_timer':
+        return 'KTimerStart'
+    if name == 'cancel' and recv == '_timer':
+        return 'KTimerCancel'
+    if name == 'send_heartbeat_impl':
+        return 'KSendHeartbeat'
     return 'KOther'
 
 
